@@ -4,7 +4,8 @@
    the matching deallocator), at the scenario's end no block allocated inside it may be live, the routine's own
    exactness flag must hold, and the output digest must be the same under the two heap fill patterns (no uninitialised
    heap value reaches a result).  Crash events (a fault on a guard page: access outside a declared extent or of a
-   freed block; an abort) and sanitizer fault events are never accepted. *)
+   freed block; an abort), releases of something that is not the start of a live block (`badfree`: interior pointer,
+   second release) and sanitizer fault events are never accepted. *)
 EXTENDS Mem, Json, IOUtils, TLC
 Tr == ndJsonDeserialize(IOEnv.TRACE)
 VARIABLES l, heap, firstDigest
